@@ -131,6 +131,10 @@ RES["re"] = [("re", "C"), ("atom", "N"), ("CA", "C")]
 RES["atom"] = [("atom", "C"), ("self", "O"), ("np", "N")]
 
 
+# a nucleotide-like residue: primes (single and double), a double quote and a backslash inside atom names
+RES["DA"] = [("P", "P"), ("O5'", "O"), ("C5'", "C"), ("H5'", "H"), ("H5''", "H"), ('N"9', "N"), ("C\\1", "C"), ("H1", "H")]
+
+
 def res_atoms(rn):
     if rn in RES:
         return RES[rn]
@@ -167,7 +171,8 @@ def fixed_topologies():
     signed = topo_spec([[("ALA", -5, "A"), ("GLY", -1, "A"), ("GLY", 0, "A"), ("SER", 3, "A"), ("GLY", 8, "A"), ("GLY", 8, "A")],
                         [("HOH", 9, ""), ("NA", -5, "")]])
     collide = topo_spec([[("re", 1, "atom"), ("atom", 2, "re")], [("ALA", 1, "self"), ("HOH", 3, "atom")]])
-    return [mixed, allprot, solvent, small, signed, collide]
+    primes = topo_spec([[("DA", 1, "N"), ("DA", 2, "N")], [("ALA", 3, "A"), ("HOH", 4, "")]])
+    return [mixed, allprot, solvent, small, signed, collide, primes]
 
 
 def residue_topologies(rng, quick):
@@ -185,7 +190,7 @@ def residue_topologies(rng, quick):
 
 
 def random_topology(rng):
-    names = [n for n in RES if n not in ("re", "atom")]
+    names = [n for n in RES if n not in ("re", "atom", "DA")]
     chains = []
     for _ in range(rng.randint(1, 3)):
         ch = []
@@ -1243,6 +1248,10 @@ def build_cases(ctx):
         add(s_, "chains")
     for s_ in QUOTED:
         add(s_, "quoted", topo=rng.choice([0, 5]))
+    for s_ in ESCAPES:
+        add(s_, "escapes", topo=6)
+    for s_ in literal_chain_cases(rng, quick):
+        add(s_, "malformed", malformed="literal_in_chain")
     for s in IMPL_ONLY:
         add(s, "impl_only", 0)
     if not quick:
@@ -1365,6 +1374,39 @@ QUOTED = ["name 'CA' \"CB\" C", "resname \"ALA\" 'GLY'", "name == 'C A'", "name 
           "resSeq == '1'", "name 'CA' to 'CB'", "name 'A' to \"Z\"", "name =~ \"C.*\"", "name =~ 'C A'", "name ' CA'", "name 'CA '", "name ''",
           "name '&&'", "name '<'", "name \"=~\"", "name 'it''s'", "name 'a\"b'", "name \"a'b\"", "segname 'A' \"B\" SEG1", "name 'None'", "name None",
           "code 'None'", "code None", "name 'True'", "name True"]
+
+
+# quoted literals with the escapes Python's string syntax interprets and with the other kind of quote inside: all inside
+# the model (Model.scan_quoted), so they MUST match it; run on the topology whose atom names carry primes, a double
+# quote and a backslash (fixed topology 6), where the selections are non-empty
+ESCAPES = ["name 'O5\\''", 'name "H5\\\'\\\'"', 'name "O5\'"', "name 'N\"9'", 'name "N\\"9"', "name 'O5\\'' 'C5\\''",
+           'name "O5\'" "H5\'\'" CA', "name == 'O5\\''", "'O5\\'' == name", 'name != "H5\'\'"', "name 'C5\\'' to 'P'",
+           "name 'C\\\\1'", "name 'C\\\\1' P", "name =~ 'H\\\\d'", "(name =~ 'H\\\\d') and not water", "name =~ 'H\\\\d$' or name 'O5\\''",
+           "name =~ 'H\\d'", "not name 'O5\\'' \"H5''\" and resSeq 1", "protein or name 'H5\\''", "name 'H5\\'' \"H5\\'\\'\"",
+           "name 'a\\\\\\'b'", 'name "H5\'" and water', "name 'H5\\'' or (water and name H1)"]
+
+
+def literal_chain_cases(rng, quick):
+    """a bare literal used as a truth value at EVERY position of a flat chain of 3-5 terms, for each spelling of and/or
+    (infixNotation flattens a chain of one spelling into one operand list); also under not and inside parentheses.
+    The model rejects every one of them: the implementation must raise."""
+    terms = ["protein", "water", "name CA", "backbone", "index 2", "(resid 0 to 1)", "all", "resname ALA GLY", "(name O)"]
+    lits = ["dog", "CA", "1", "0", "'CA'", "2.5", '"x"', "ZZ", "True1"]
+    out = []
+    for sp in AND_SP + OR_SP:
+        for n in (3, 4, 5):
+            for pos in range(n):
+                for lit in (rng.sample(lits, 2) if quick else lits):
+                    ts = [rng.choice(terms) for _ in range(n)]
+                    ts[pos] = lit
+                    s_ = (" %s " % sp).join(ts)
+                    q = rng.random()
+                    if q < 0.15:
+                        s_ = "not (%s)" % s_
+                    elif q < 0.3:
+                        s_ = "(%s) %s water" % (s_, rng.choice(AND_SP + OR_SP))
+                    out.append(s_)
+    return out
 
 
 def chain_cases(rng, n):
